@@ -119,5 +119,5 @@ def cases(draw):
 
 
 PARTS = [
-    Part('pairs', 'hyp', run_case, strategy=cases(), quick=640, thorough=48000, quick_shards=8),
+    Part('pairs', 'hyp', run_case, strategy=cases(), quick=800, thorough=48000, quick_shards=8),
 ]
